@@ -634,6 +634,107 @@ func addConfig(r *rand.Rand, set ruleSet) ruleSet {
 	return set
 }
 
+var disruptivePool = []actJ{{A: "pass"}, {A: "deny"}, {A: "block"}, {A: "drop"}, {A: "redirect"},
+	{A: "allow"}, {A: "allow", Scope: "phase"}, {A: "allow", Scope: "request"},
+	{A: "allow", Scope: "phase"}, {A: "allow", Scope: "request"}}
+
+// addMultiDisruptive: action lists naming two or three disruptive actions in every order (the last one
+// must win WITH its own parameter: pass,...,allow:phase is allow:phase, not allow)
+func addMultiDisruptive(r *rand.Rand, set ruleSet) ruleSet {
+	rules := append([]ruleJ{}, set.Rules...)
+	for i := range rules {
+		x := &rules[i]
+		if x.Marker != "" || len(x.Links) == 0 || r.Intn(100) >= 55 {
+			continue
+		}
+		acts := append([]actJ{}, x.Acts...)
+		have := 0
+		for _, a := range acts {
+			if isDisruptive(a) {
+				have++
+			}
+		}
+		for n := 2 + r.Intn(2) - have; n > 0; n-- {
+			k := r.Intn(len(acts) + 1)
+			d := disruptivePool[r.Intn(len(disruptivePool))]
+			acts = append(acts[:k], append([]actJ{d}, acts[k:]...)...)
+		}
+		x.Acts = acts
+	}
+	set.Rules = rules
+	set.Shape = "multidis+" + set.Shape
+	return set
+}
+
+// addBodyKeys: links of rules in phases >= 2 read their bit from the urlencoded request body
+// (ARGS_POST:b<k>) instead of a header: their match depends on the body having been processed
+func addBodyKeys(r *rand.Rand, set ruleSet) ruleSet {
+	rules := append([]ruleJ{}, set.Rules...)
+	hdr := map[int]bool{} // keys read by phase-1 rules stay header keys everywhere
+	for _, x := range rules {
+		if x.Phase == 1 {
+			for _, l := range x.Links {
+				hdr[l.Key] = true
+			}
+		}
+	}
+	for i := range rules {
+		if rules[i].Phase < 2 {
+			continue
+		}
+		links := append([]linkJ{}, rules[i].Links...)
+		for j := range links {
+			if links[j].Key >= 0 && !hdr[links[j].Key] && r.Intn(100) < 65 {
+				links[j].Body = true
+			}
+		}
+		rules[i].Links = links
+	}
+	set.Rules = rules
+	set.Shape = "body+" + set.Shape
+	return set
+}
+
+// genAllowBody: a phase-1 rule allows (bare / request / phase) or interrupts; rules of phases 2..5 read
+// body-derived variables. Outside the allow's scope they must match exactly as without the allow.
+func genAllowBody(r *rand.Rand, maxKeys int) ruleSet {
+	b := &builder{r: r, maxKeys: maxKeys}
+	if r.Intn(2) == 0 {
+		b.rule(1, 1, nil, r.Intn(2) == 0)
+	}
+	var acts []actJ
+	switch x := r.Intn(10); {
+	case x < 4:
+		acts = []actJ{{A: "allow", Scope: "request"}}
+	case x < 7:
+		acts = []actJ{{A: "allow"}}
+	case x < 8:
+		acts = []actJ{{A: "allow", Scope: "phase"}}
+	case x < 9:
+		acts = disruptiveWithFlow(r)
+	default:
+		acts = []actJ{{A: "deny"}}
+	}
+	b.rule(1, 1+r.Intn(2), acts, r.Intn(2) == 0)
+	b.rule(1, 1, nil, r.Intn(2) == 0)
+	for p := 2; p <= 5; p++ {
+		for n := 1 + r.Intn(2); n > 0; n-- {
+			var a []actJ
+			if r.Intn(6) == 0 {
+				a = b.flowAct(true)
+			}
+			b.rule(p, chainLen(r), a, false)
+		}
+	}
+	eng := "On"
+	if r.Intn(8) == 0 {
+		eng = "DetectionOnly"
+	}
+	set := addBodyKeys(r, ruleSet{Engine: eng, Rules: b.rules, Shape: "allow-vs-body"})
+	set.Shape = "allow-vs-body"
+	return set
+}
+
 func hasMarkerAfterJumper(rules []ruleJ, m string) bool {
 	seenJumper := false
 	for _, r := range rules {
@@ -688,6 +789,44 @@ func generate(cfg vh.Config) []ruleSet {
 		if i%11 == 10 {
 			s := genSeries(r)
 			s.Shape += "/sampled"
+			total += len(s.Reqs)
+			sets = append(sets, s)
+			continue
+		}
+		if i%11 == 1 || i%11 == 5 || i%11 == 8 {
+			var s ruleSet
+			mk := 48
+			if i%2 == 0 {
+				mk = 2 + r.Intn(exhaustiveKeys-1)
+			}
+			switch {
+			case i%11 == 1:
+				s = genAllowBody(r, mk)
+			default:
+				switch r.Intn(3) {
+				case 0:
+					s = genRandom(r, mk)
+				case 1:
+					s = genPlacement(r, mk)
+				default:
+					s = genEngineSwitch(r, mk)
+				}
+				s = addMultiDisruptive(r, s)
+				if r.Intn(3) == 0 {
+					s = addConfig(r, s)
+				}
+				if r.Intn(3) == 0 {
+					s = addBodyKeys(r, s)
+				}
+			}
+			n := nKeys(s.Rules)
+			if n <= exhaustiveKeys {
+				s.Reqs = allSubsets(n)
+				s.Shape += "/all-subsets"
+			} else {
+				s.Reqs = randomReqs(r, n, cfg.Pick(6, 12))
+				s.Shape += "/sampled"
+			}
 			total += len(s.Reqs)
 			sets = append(sets, s)
 			continue
